@@ -35,6 +35,7 @@ class UserDeleteNode(ActionGroup):
         super().__init__(tracks, actions=[])
         self.tracks: SolutionTracks  # Narrow type from base class
         # delete adjacent edges
+        has_pred = len(self.tracks.predecessors(node)) > 0
         for pred in self.tracks.predecessors(node):
             siblings = self.tracks.successors(pred)
             # if you are deleting the first node after a division, relabel
@@ -46,7 +47,8 @@ class UserDeleteNode(ActionGroup):
                 new_track_id = self.tracks.get_track_id(pred)
                 self.actions.append(UpdateTrackIDs(tracks, sib, new_track_id))
             self.actions.append(DeleteEdge(tracks, (pred, node)))
-        for succ in self.tracks.successors(node):
+        orphans = self.tracks.successors(node)
+        for succ in orphans:
             self.actions.append(DeleteEdge(tracks, (node, succ)))
 
         # connect child and parent in track, if applicable
@@ -56,6 +58,21 @@ class UserDeleteNode(ActionGroup):
             predecessor, successor = self.tracks.get_track_neighbors(track_id, time)
             if predecessor is not None and successor is not None:
                 self.actions.append(AddEdge(tracks, (predecessor, successor)))
+                if successor in orphans:
+                    orphans.remove(successor)
+
+        # every subtree that is cut off starts a new lineage (its track id stays); if
+        # the deleted node was a root, the first subtree keeps the old lineage
+        for idx, orphan in enumerate(orphans):
+            if has_pred or idx > 0:
+                self.actions.append(
+                    UpdateTrackIDs(
+                        tracks,
+                        orphan,
+                        self.tracks.get_track_id(orphan),
+                        self.tracks.get_next_lineage_id(),
+                    )
+                )
 
         # delete node
         self.actions.append(DeleteNode(tracks, node, pixels=pixels))
